@@ -602,6 +602,21 @@ def run(chk, repo):
                        why="frames read outside the try/finally that closes the file: on that path the file stays open "
                            "after the stream is exhausted", node=n)
     chk.floor("C18.close", nrf, 1, "uses of readframes")
+    # ... and the generator that reads the frames cannot end without passing through that finally: no return (or a
+    # fall-through) outside the try that closes the file
+    for g_ in [f_ for f_ in ast.walk(ws) if isinstance(f_, FuncTypes) and f_ is not ws and any(
+            isinstance(x_, ast.Attribute) and x_.attr == "readframes" for x_ in ast.walk(f_))]:
+        closing = [t_ for t_ in ast.walk(g_) if isinstance(t_, ast.Try) and any(
+            isinstance(c, ast.Call) and isinstance(c.func, ast.Attribute) and c.func.attr == "close"
+            for f2 in t_.finalbody for c in ast.walk(f2))]
+        if not closing:
+            continue
+        inside = {id(x_) for t_ in closing for x_ in ast.walk(t_)}
+        loose = [r_ for r_ in own_nodes(g_) if isinstance(r_, ast.Return) and id(r_) not in inside]
+        chk.decide(not loose, "C18.close", WW("WavStream.__init__.%s" % g_.name),
+                   "every exit of %s passes through the finally that closes the file" % g_.name,
+                   why="a return before the try (an early exit for an empty file ...) leaves the generator without "
+                       "closing the wave file", node=loose[0] if loose else g_)
     # ownership: Wave_read.close() closes the underlying file only when the wave module opened it itself - a file
     # object opened by the constructor and handed to wave.open must be closed by the constructor's own clean-up
     wparam = ws.args.args[1].arg if len(ws.args.args) > 1 else "wave_file"
